@@ -15,6 +15,11 @@ import (
 // recv (store to the field, map update / element store through the field, or an
 // atomic store on its address).
 func fieldWrites(f *ssa.Function, st *types.Struct, named *types.Named) map[string]bool {
+	return fieldWritesIn(f, st, named, nil)
+}
+
+// fieldWritesIn restricts fieldWrites to the blocks accepted by keep (nil = all).
+func fieldWritesIn(f *ssa.Function, st *types.Struct, named *types.Named, keep func(*ssa.BasicBlock) bool) map[string]bool {
 	out := map[string]bool{}
 	isT := func(t types.Type) bool {
 		if p, ok := t.Underlying().(*types.Pointer); ok {
@@ -24,6 +29,9 @@ func fieldWrites(f *ssa.Function, st *types.Struct, named *types.Named) map[stri
 		return ok && n.Obj() == named.Obj()
 	}
 	for _, b := range f.Blocks {
+		if keep != nil && !keep(b) {
+			continue
+		}
 		for _, in := range b.Instrs {
 			switch x := in.(type) {
 			case *ssa.Store:
@@ -86,15 +94,36 @@ func ruleResetComplete(ctx *Ctx, rule, pkg, typeName, method string, also []stri
 	resetWrites := map[string]bool{}
 	seen := map[*ssa.Function]bool{}
 	var visit func(f *ssa.Function, depth int)
+	// only what Reset does on EVERY path counts: blocks that dominate all of its returns
+	var rets []*ssa.BasicBlock
+	for _, b := range reset.Blocks {
+		if _, ok := b.Instrs[len(b.Instrs)-1].(*ssa.Return); ok {
+			rets = append(rets, b)
+		}
+	}
+	always := func(b *ssa.BasicBlock) bool {
+		if b.Parent() != reset {
+			return true
+		}
+		for _, rb := range rets {
+			if !b.Dominates(rb) {
+				return false
+			}
+		}
+		return true
+	}
 	visit = func(f *ssa.Function, depth int) {
 		if f == nil || seen[f] || depth > 2 || len(f.Blocks) == 0 {
 			return
 		}
 		seen[f] = true
-		for fld := range fieldWrites(f, st, recvT) {
+		for fld := range fieldWritesIn(f, st, recvT, always) {
 			resetWrites[fld] = true
 		}
 		for _, b := range f.Blocks {
+			if !always(b) {
+				continue
+			}
 			for _, in := range b.Instrs {
 				if ci, ok := in.(ssa.CallInstruction); ok {
 					if cal := ci.Common().StaticCallee(); cal != nil && cal.Signature.Recv() != nil && len(ci.Common().Args) > 0 {
@@ -134,7 +163,7 @@ func ruleResetComplete(ctx *Ctx, rule, pkg, typeName, method string, also []stri
 		if resetWrites[n] {
 			r.Ok(rule, key, q.Pos(reset.Pos()), "written by "+strings.Join(w, ", ")+"; re-initialised by "+method)
 		} else {
-			r.Violation(rule, key, q.Pos(reset.Pos()), fmt.Sprintf("field %s is per-message state (written by %s) but %s does not re-initialise it: a %s that is reused (Decoder.ReuseBuffer, transports) serves state of the previous message", n, strings.Join(w, ", "), method, typeName))
+			r.Violation(rule, key, q.Pos(reset.Pos()), fmt.Sprintf("field %s is per-message state (written by %s) but %s does not re-initialise it on every path: a %s that is reused (Decoder.ReuseBuffer, transports) serves state of the previous message", n, strings.Join(w, ", "), method, typeName))
 		}
 	}
 	if len(names) == 0 {
